@@ -37,6 +37,10 @@ func (sp *Scope) BeginScope() {
 }
 
 func (sp *Scope) EndScope() {
+	// no scope has begun (e.g. there is no call frame yet)
+	if sp == nil {
+		return
+	}
 	sp.currentDepth--
 
 	// pop all deeper values
